@@ -122,7 +122,7 @@ func checkC09(c *an.Ctx) {
 				if an.SameValue(v, e) {
 					for _, src := range an.Sources(l.RangeOperand()) {
 						if call, ok := src.(*ssa.Call); ok {
-							if _, ok := an.IsCallTo(call, "(*pkg/task.Task).GetVariations"); ok {
+							if _, ok := an.IsCallTo(call, "(pkg/task.Task).GetVariations"); ok {
 								return "variation"
 							}
 						}
